@@ -193,56 +193,110 @@ def two_preemption_plans(pts, stride=1):
                     yield [(t, k), (u, j), (t, 10 ** 9)]
 
 
-def explore(ctx, tier, rng, specs, search=False):
-    # warm-up: imports, regex caches, singledispatch caches are filled before any preemption is attempted
-    groups = [list(g) for g in FIXED_GROUPS]
-    quick = tier == "quick" and not search
-    budget_s = 35 if quick else 420
-    t_end = ctx.elapsed() + budget_s
-    total = 0
-    exhausted = 0
-    for gi, urls in enumerate(groups):
-        solo, pts = [], []
-        for u in urls:
-            o, p = solo_points(F.FIXED_SPEC, u)
-            ref = F.call(F.make_app(F.FIXED_SPEC)[0], u)
-            if o != ref:
-                ctx.oracle_fail("response differs when run in a worker thread", {"oracle": "schedule", "spec": F.FIXED_SPEC,
-                                "urls": [u], "plan": []}, F.show(o), F.show(ref))
-            solo.append(ref)
-            pts.append(p)
-        plans = list(one_preemption_plans(pts))
-        if quick and gi >= 3:
-            plans = plans[::7]          # first three groups exhaustively, the rest sampled in the quick tier
-        else:
-            exhausted += 1
-        for plan in plans:
-            if not check_schedule(ctx, F.FIXED_SPEC, urls, plan, solo, "one-preemption"):
-                return
-            total += 1
-        if not quick:
-            stride = 1 if (gi < 2 and ctx.tier == "thorough") else 5
-            for plan in two_preemption_plans(pts, stride=stride):
-                if ctx.elapsed() > t_end:
-                    break
-                if not check_schedule(ctx, F.FIXED_SPEC, urls, plan, solo, "two-preemptions"):
-                    return
-                total += 1
-    # random schedules with more preemptions, random datasets and request groups
-    n_random = 150 if quick else 3000
-    for i in range(n_random):
-        if ctx.elapsed() > t_end + (20 if quick else 200):
+TINY_SPEC = {"name": "d", "attrs": {"title": "t"},
+             "vars": [["base", "a", "i4", [4], {"units": "m"}],
+                      ["seq", "s", {}, [["i", "i4", "x"], ["w", "S", None]], 3]]}
+TINY_GROUPS = [["/d.dods?s&s.i>1", "/d.dods?s.i"], ["/d.dods?a[1:2]", "/d.ascii?s.w&s.i<9"]]
+
+
+class Rec(object):
+    """stands in for ctx inside pool workers: records the calls, the parent replays them"""
+
+    def __init__(self):
+        self.calls = []
+
+    def count(self, *a, **k):
+        self.calls.append(("count", a, k))
+
+    def oracle_fail(self, *a, **k):
+        self.calls.append(("oracle_fail", a, k))
+
+
+_solo_cache = {}
+
+
+def _solo(spec, url):
+    key = (repr(spec), url)
+    if key not in _solo_cache:
+        _solo_cache[key] = F.call(F.make_app(spec)[0], url)
+    return _solo_cache[key]
+
+
+def _job(job):
+    spec, urls, plans, where = job
+    rec = Rec()
+    solo = [_solo(spec, u) for u in urls]
+    for plan in plans:
+        if not check_schedule(rec, spec, urls, plan, solo, where):
             break
+    return rec.calls
+
+
+def chunks(xs, n):
+    return [xs[i:i + n] for i in range(0, len(xs), n)]
+
+
+def explore(ctx, tier, rng, specs, search=False):
+    import multiprocessing
+
+    quick = tier == "quick" and not search
+    jobs = []
+    notes = []
+    # warm-up in the parent (imports, regex and singledispatch caches) and the points of every request
+    for spec, groups, label in ((F.FIXED_SPEC, FIXED_GROUPS, "fixed"), (TINY_SPEC, TINY_GROUPS, "tiny")):
+        for gi, urls in enumerate(groups):
+            pts = []
+            for u in urls:
+                o, p = solo_points(spec, u)
+                ref = _solo(spec, u)
+                if o != ref:
+                    ctx.oracle_fail("response differs when run in a worker thread",
+                                    {"oracle": "schedule", "spec": spec, "urls": [u], "plan": []}, F.show(o), F.show(ref))
+                pts.append(p)
+            one = list(one_preemption_plans(pts))
+            tag = "one-preemption-exhaustive"
+            if quick and label == "fixed" and gi >= 2:
+                one, tag = one[gi % 8::8], "one-preemption-sampled"
+            for ch in chunks(one, 120):
+                jobs.append((spec, urls, ch, tag))
+            if label == "tiny":
+                # two preemptions: exhaustive on the tiny dataset in the thorough tier, a lattice in the quick tier
+                stride = 12 if quick else 1
+                two = list(two_preemption_plans(pts, stride=stride))
+                for ch in chunks(two, 150):
+                    jobs.append((spec, urls, ch, "two-preemptions-%s" % ("lattice" if stride > 1 else "exhaustive")))
+                notes.append("%s %s: points=%s one-preemption=%d two-preemption(stride %d)=%d"
+                             % (label, urls, pts, len(one), stride, len(two)))
+            else:
+                if not quick:
+                    stride = max(1, int((2.0 * pts[0] * pts[1] / 12000.0) ** 0.5))
+                    two = list(two_preemption_plans(pts[:2], stride=stride))
+                    for ch in chunks(two, 150):
+                        jobs.append((spec, urls[:2], ch, "two-preemptions-lattice"))
+                    notes.append("%s %s: points=%s one-preemption=%d two-preemption lattice stride %d=%d"
+                                 % (label, urls, pts, len(one), stride, len(two)))
+                else:
+                    notes.append("%s %s: points=%s one-preemption=%d" % (label, urls, pts, len(one)))
+    # random schedules with more preemptions, random datasets and request groups
+    n_random = 300 if quick else 8000
+    rnd = []
+    for i in range(n_random):
         if i % 3 == 0:
             spec, urls = F.FIXED_SPEC, rng.sample(F.FIXED_REQUESTS, rng.choice([2, 3]))
         else:
             spec = rng.choice(specs)
             urls = [F.rand_request(rng, spec)[0] for _ in range(rng.choice([2, 2, 3]))]
-        solo = [F.call(F.make_app(spec)[0], u) for u in urls]
         plan = [(rng.randrange(len(urls)), rng.choice([0, 1, 2, 3, 5, 8, 13, 21, 34, 55, 89, rng.randint(0, 400)]))
                 for _ in range(rng.randint(2, 12))]
-        if not check_schedule(ctx, spec, urls, plan, solo, "random"):
-            return
-        total += 1
+        rnd.append((spec, urls, [plan], "random"))
+    jobs += rnd
+    workers = max(2, min(14, (os.cpu_count() or 4) - 2))
+    total = 0
+    with multiprocessing.get_context("fork").Pool(workers) as pool:
+        for calls in pool.imap_unordered(_job, jobs, chunksize=1):
+            for name, a, k in calls:
+                getattr(ctx, name)(*a, **k)
+                if name == "count":
+                    total += 1
     ctx.extra["schedules_run"] = ctx.extra.get("schedules_run", 0) + total
-    ctx.extra["one_preemption_groups_exhausted"] = exhausted
+    ctx.extra["schedule_groups"] = notes
